@@ -129,4 +129,28 @@ fn tex_repeat_pot_subregion() {
     }
 }
 
+// @ob props=C12,C20 tier=quick kind=B cfg=core-none timeout=900
+// @fn SamplerRepeatPot::sample_abs
+// @bound texture sizes {1,2,4}^2, owned buffer; complete in the coordinates
+// @clause modular, no-fp build: against the CONTRACT of fallback::floor alone (its body replaced by the contract: exact floor for |x| < 2^63), the repeating sampler returns the texel at floor(c) mod size for |c| < 2^31 and stays in bounds for every coordinate
+#[cfg(not(feature = "fp"))]
+#[cfg(not(verif_skip_tex_repeat_pot_modular_floor))]
+#[kani::proof]
+#[kani::stub_verified(crate::math::float::fallback::floor)]
+#[kani::unwind(20)]
+fn tex_repeat_pot_modular_floor() {
+    let (lw, lh): (u32, u32) = (kani::any(), kani::any());
+    kani::assume(lw <= 2 && lh <= 2);
+    let (w, h) = (1u32 << lw, 1u32 << lh);
+    let tex = Texture::from(Buf2::new_with((w, h), |x, y| (x, y)));
+    let (u, v): (F, F) = (kani::any(), kani::any());
+    let s = SamplerRepeatPot::new(&tex);
+    let (x, y) = s.sample_abs(&tex, uv(u, v));
+    kani::cover!(u < -1.0 && small(u) && w == 4);
+    assert!(x < w && y < h);
+    if small(u) && small(v) {
+        assert!(x as i64 == ifloor(u).rem_euclid(w as i64) && y as i64 == ifloor(v).rem_euclid(h as i64));
+    }
+}
+
 include!("gen/dispatch_tex.rs");
